@@ -860,3 +860,47 @@ CORPUS.append(dict(id="c16-variational-running-minimum-never-updated", props=["C
     (_VF, "    best_params = params\n    keys = tqdm(", "    best_params = params\n    best_loss = float(\"inf\")\n    keys = tqdm("),
     (_VF, _VF_OLD, "        loss_val = loss.item()\n        losses.append(loss_val)\n        keys.set_postfix({\"loss\": loss_val})\n"
                    "        if loss_val < best_loss:\n            best_params = params\n")]))
+
+# a local that holds the unwrapped object is fine; a local that holds the raw self is the missing unwrap under a new name
+_LP_OLD = ("        self = unwrap(self)\n        x = arraylike_to_array(x, err_name=\"x\", dtype=float)\n"
+           "        if self.cond_shape is not None:\n"
+           "            condition = arraylike_to_array(condition, err_name=\"condition\", dtype=float)\n"
+           "        lps = self._vectorize(self._log_prob)(x, condition)")
+silent("c12-benign-unwrapped-local", ["C12", "C06", "C04"], D, _LP_OLD,
+       "        dist = unwrap(self)\n        x = arraylike_to_array(x, err_name=\"x\", dtype=float)\n"
+       "        if dist.cond_shape is not None:\n"
+       "            condition = arraylike_to_array(condition, err_name=\"condition\", dtype=float)\n"
+       "        lps = dist._vectorize(dist._log_prob)(x, condition)")
+fire("c12-raw-self-under-a-local-name", "C12", D, _LP_OLD,
+     "        dist = self\n        x = arraylike_to_array(x, err_name=\"x\", dtype=float)\n"
+     "        if dist.cond_shape is not None:\n"
+     "            condition = arraylike_to_array(condition, err_name=\"condition\", dtype=float)\n"
+     "        lps = dist._vectorize(dist._log_prob)(x, condition)", "C12.entry")
+fire("c12-core-of-the-raw-self-lifted-by-the-unwrapped", "C12", D, _LP_OLD,
+     "        dist = unwrap(self)\n        x = arraylike_to_array(x, err_name=\"x\", dtype=float)\n"
+     "        if dist.cond_shape is not None:\n"
+     "            condition = arraylike_to_array(condition, err_name=\"condition\", dtype=float)\n"
+     "        raw = self\n        lps = dist._vectorize(raw._log_prob)(x, condition)", "C12.entry")
+
+# the choice of orientation made by early return instead of a conditional expression (first factory)
+_FT_OLD = "    bijection = Invert(Scan(layers)) if invert else Scan(layers)\n    return Transformed(base_dist, bijection)"
+silent("c03-benign-factory-orientation-by-early-return", ["C03", "C01", "C06"], "flowjax/flows.py", _FT_OLD,
+       "    stacked = Scan(layers)\n    if invert:\n        return Transformed(base_dist, Invert(stacked))\n"
+       "    return Transformed(base_dist, stacked)")
+fire("c03-factory-orientation-by-early-return-swapped", "C03", "flowjax/flows.py", _FT_OLD,
+     "    stacked = Scan(layers)\n    if not invert:\n        return Transformed(base_dist, Invert(stacked))\n"
+     "    return Transformed(base_dist, stacked)", "C03.factory")
+fire("c03-factory-early-return-other-base", "C03", "flowjax/flows.py", _FT_OLD,
+     "    stacked = Scan(layers)\n    if invert:\n        return Transformed(base_dist, Invert(stacked))\n"
+     "    return Transformed(StandardNormal(base_dist.shape), stacked)", "C03.factory")
+# the excluded-argument sets of the bijection vectoriser as module constants
+_EXCL = [(B + "bijection.py", "            exclude = frozenset()\n", "            exclude = _EXCLUDE_NOTHING\n"),
+         (B + "bijection.py", "            exclude = frozenset([1])\n", "            exclude = _EXCLUDE_CONDITION\n")]
+silent("c06-benign-excluded-sets-as-constants", ["C06", "C13"], B + "bijection.py",
+       "def _unwrap_check_and_cast(method):", "_EXCLUDE_NOTHING = frozenset()\n_EXCLUDE_CONDITION = frozenset([1])\n\n\n"
+       "def _unwrap_check_and_cast(method):")
+CORPUS[-1]["edits"].extend(_EXCL)
+fire("c06-excluded-constant-names-the-input", "C06", B + "bijection.py",
+     "def _unwrap_check_and_cast(method):", "_EXCLUDE_NOTHING = frozenset()\n_EXCLUDE_CONDITION = frozenset([0])\n\n\n"
+     "def _unwrap_check_and_cast(method):", "C06.lift")
+CORPUS[-1]["edits"].extend(_EXCL)
